@@ -221,6 +221,11 @@ type c42nClient struct {
 type c42nModel struct {
 	root    hash.Hash
 	epoch   int
+	// every root the store has had, with the epoch at which it was installed: a handle may
+	// refresh its view of the manifest as a side effect of its own table-set updates (conjoin,
+	// flush), not only through Rebase/Commit, so Root() may legitimately be any root at or after
+	// the client's modelled view
+	rootAt map[hash.Hash]int
 	durable map[hash.Hash][]byte
 	since   map[hash.Hash]int // epoch at which the chunk became durable
 	all     map[hash.Hash][]byte
@@ -244,7 +249,12 @@ func (m *c42nModel) verify(rt *rapid.T, ctx context.Context, c *c42nClient, why 
 		rt.Fatalf("%s: client %d Root(): %v", why, c.id, err)
 	}
 	if root != c.viewRoot {
-		rt.Fatalf("%s: client %d Root() = %s, model view %s (current root %s)", why, c.id, root, c.viewRoot, m.root)
+		// never older than the modelled view and never a root the store did not have
+		ep, known := m.rootAt[root]
+		if !known || ep < c.viewEpoch {
+			rt.Fatalf("%s: client %d Root() = %s, model view %s (current root %s)", why, c.id, root, c.viewRoot, m.root)
+		}
+		c.viewRoot, c.viewEpoch = root, ep
 	}
 	mustHave := map[hash.Hash][]byte{}
 	for h, d := range c.pending {
@@ -358,7 +368,7 @@ func c42nCase(rt *rapid.T, rec *vh.Recorder, gitOnly bool) {
 		maxSteps = 6
 	}
 	nSteps := rapid.IntRange(4, maxSteps).Draw(rt, "nSteps")
-	m := &c42nModel{durable: map[hash.Hash][]byte{}, since: map[hash.Hash]int{}, all: map[hash.Hash][]byte{}, probes: 12}
+	m := &c42nModel{durable: map[hash.Hash][]byte{}, since: map[hash.Hash]int{}, all: map[hash.Hash][]byte{}, probes: 12, rootAt: map[hash.Hash]int{}}
 	if kind == "git" {
 		m.probes = 4
 	}
@@ -448,6 +458,7 @@ func c42nCase(rt *rapid.T, rec *vh.Recorder, gitOnly bool) {
 		if ok {
 			m.epoch++
 			m.root = cur
+			m.rootAt[cur] = m.epoch
 			for h, d := range c.pending {
 				if _, dur := m.durable[h]; !dur {
 					m.durable[h] = d
@@ -575,7 +586,8 @@ func TestVerif_C42_NBS(t *testing.T) {
 	rec := vh.NewRecorder("C42", "nbs", "exploration", c42nRule,
 		"chunks carry no references (the reference sanity check of Put/Commit is property C01/C02's subject); the committed root is always a chunk the committer wrote",
 		"git clients run with the read-side fetch dedup window disabled (SyncForReadTTL=1ns); within the production window of 1 s a handle may serve a stale manifest by design",
-		"chunks that became durable after a client's last refresh are not required to be visible or invisible to it")
+		"chunks that became durable after a client's last refresh are not required to be visible or invisible to it",
+		"a handle's Root() may be any root the store has had at or after the client's modelled view (handles refresh the manifest as a side effect of their own conjoin/table-set updates, not only through Rebase/Commit); it may never be older than the view or a root the store never had")
 	defer rec.Write(t)
 	vh.Check(t, "nbs", 400, 800, func(rt *rapid.T) { c42nCase(rt, rec, false) })
 	vh.Check(t, "nbs_git", 3, 2, func(rt *rapid.T) { c42nCase(rt, rec, true) })
